@@ -4,8 +4,11 @@ import (
 	"bytes"
 	"context"
 	"fmt"
+	"sort"
 
 	"verif/mc"
+
+	"github.com/buildbarn/bb-remote-execution/pkg/builder"
 
 	"github.com/buildbarn/bb-remote-execution/pkg/filesystem/pool"
 	"github.com/buildbarn/bb-remote-execution/pkg/filesystem/virtual"
@@ -35,6 +38,10 @@ type seqCfg struct {
 	name      string
 	nfs       bool
 	initShare virtual.ShareMask
+	// viaDirectory: the file is the entry of a real in-memory directory and
+	// uploads go through the real virtualBuildDirectory.UploadFile (part 4,
+	// dir_test.go).
+	viaDirectory bool
 }
 
 // newLeaf creates the system under test: the real pool-backed file allocator
@@ -64,6 +71,14 @@ type seqState struct {
 	cas  *fakeCAS
 	log  *recordingErrorLogger
 	leaf virtual.LinkableLeaf
+	// bd is the virtual build directory through which uploads go (nil:
+	// ApplyUploadFile on the leaf).
+	bd builder.BuildDirectory
+	// upContent[function] is the contents at the last successful upload
+	// with that digest function (directory configurations only; part of
+	// the key, as anything in front of the file that remembers uploads
+	// would depend on it).
+	upContent map[string]string
 
 	// Reference model.
 	links    int
@@ -89,7 +104,12 @@ func (s *seqState) describe() string {
 func newSeqState(c *mc.SeqCtx, cfg seqCfg) *seqState {
 	s := &seqState{c: c, cfg: cfg, log: &recordingErrorLogger{}, cas: &fakeCAS{}}
 	s.pool = &fakePool{fail: s.fail}
-	s.leaf = newLeaf(s.pool, s.log, cfg.nfs, cfg.initShare)
+	if cfg.viaDirectory {
+		s.leaf, s.bd = newDirFile(s.pool, s.log, cfg.nfs, cfg.initShare, s.cas)
+		s.upContent = map[string]string{}
+	} else {
+		s.leaf = newLeaf(s.pool, s.log, cfg.nfs, cfg.initShare)
+	}
 	s.links = 1
 	if cfg.initShare != 0 {
 		s.desc[cfg.initShare] = 1
@@ -369,7 +389,7 @@ func (s *seqState) opUpload(fn digest.Function, readError bool) {
 	if readError && !s.released {
 		pf.failReads = 1
 	}
-	d, err := uploadFile(s.leaf, s.cas, fn, closedChannel)
+	d, err := uploadVia(s.bd, s.leaf, s.cas, fn, closedChannel)
 	pf.failReads = 0
 	puts := s.cas.putsSince(before, "")
 	if pf.readFailures > failuresBefore {
@@ -394,7 +414,15 @@ func (s *seqState) opUpload(fn digest.Function, readError bool) {
 		s.fail("upload-failed", "UploadFile of a referenced file (%s) failed: %v", s.describe(), err)
 		return
 	}
-	if data, ok := checkUpload(s.fail, fn, d, puts); ok && !bytes.Equal(data, s.content) {
+	if s.bd != nil {
+		// Through the build directory the transfer may be skipped if
+		// the CAS has the contents already; the digest must still be
+		// the one of the CURRENT contents.
+		if data, ok := checkUploadStored(s.fail, fn, d, puts, s.cas.all()); ok && !bytes.Equal(data, s.content) {
+			s.fail("upload-content-mismatch", "UploadFile reported the digest of %q, the file contains %q", data, s.content)
+		}
+		s.upContent[fn.GetEnumValue().String()] = string(s.content)
+	} else if data, ok := checkUpload(s.fail, fn, d, puts); ok && !bytes.Equal(data, s.content) {
 		s.fail("upload-content-mismatch", "the CAS received %q, the file contains %q", data, s.content)
 	}
 	s.settle("upload")
@@ -539,7 +567,11 @@ func (s *seqState) final() {
 	if !s.released {
 		panic("model error: references remain")
 	}
-	// Calls that can legitimately arrive late.
+	// Calls that can legitimately arrive late. (The links were dropped on
+	// the file itself, behind the directory's back: late calls are therefore
+	// issued on the file, not through the directory entry, which would
+	// have disappeared together with the link.)
+	s.bd = nil
 	s.opLink()
 	s.opOpen(virtual.ShareMaskRead, false, false)
 	s.opOpen(virtual.ShareMaskWrite, true, false)
@@ -578,7 +610,18 @@ func (s *seqState) key() string {
 			}
 		}
 	}
-	return fmt.Sprintf("impl{rc=%d w=%d fz=%d nil=%v size=%d x=%v nmw=%v ufw=%v cached=%s hl=%d} pool{closed=%d uac=%d data=%s} model{l=%d d=%v fz=%d c=%s x=%v rel=%v}",
+	up := ""
+	if s.upContent != nil {
+		var fns []string
+		for f := range s.upContent {
+			fns = append(fns, f)
+		}
+		sort.Strings(fns)
+		for _, f := range fns {
+			up += fmt.Sprintf(" up{%s current=%v}", f, s.upContent[f] == string(s.content))
+		}
+	}
+	return up + fmt.Sprintf("impl{rc=%d w=%d fz=%d nil=%v size=%d x=%v nmw=%v ufw=%v cached=%s hl=%d} pool{closed=%d uac=%d data=%s} model{l=%d d=%v fz=%d c=%s x=%v rel=%v}",
 		d.ReferenceCount, d.WritableDescriptorsCount, d.FrozenDescriptorsCount, d.FileIsNil, d.Size, d.IsExecutable,
 		d.NoMoreWritersWakeupSet, d.UnfreezeWakeupSet, cached, d.HandleLinkCount,
 		pf.closed, pf.usesAfterClose, canonical(pf.data),
@@ -642,10 +685,10 @@ func seqOps() []mc.SeqOp {
 func seqs() []*mc.Seq {
 	var r []*mc.Seq
 	for _, cfg := range []seqCfg{
-		{"seq-fuse", false, 0},
-		{"seq-fuse-created-rw", false, virtual.ShareMaskRead | virtual.ShareMaskWrite},
-		{"seq-nfs", true, 0},
-		{"seq-nfs-created-w", true, virtual.ShareMaskWrite},
+		{name: "seq-fuse"},
+		{name: "seq-fuse-created-rw", initShare: virtual.ShareMaskRead | virtual.ShareMaskWrite},
+		{name: "seq-nfs", nfs: true},
+		{name: "seq-nfs-created-w", nfs: true, initShare: virtual.ShareMaskWrite},
 	} {
 		cfg := cfg
 		depth := map[string]int{"quick": 5, "thorough": 8}
@@ -661,5 +704,5 @@ func seqs() []*mc.Seq {
 			Panics: []string{prop},
 		})
 	}
-	return r
+	return append(r, dirSeqs()...)
 }
